@@ -104,6 +104,7 @@ class Connector:
         self._pending_connectors = set()  # Deferreds that can be cancelled
         self._pending_connections = EmptyableSet(
             _eventual_queue=self._eventual_queue)  # Protocols to be stopped
+        self._inbound_factories = []  # their unselected protocols get stopped too
         self._contenders = set()  # viable connections
         self._winning_connection = None
         self._timing = self._timing or DebugTiming()
@@ -235,6 +236,10 @@ class Connector:
     def stop_pending_connections(self):
         d = self._pending_connections.when_next_empty()
         [c.disconnect() for c in self._pending_connections]
+        for f in self._inbound_factories:
+            for c in list(f._protocols):
+                if c is not self._winning_connection:
+                    c.disconnect()
         return d
 
     def break_cycles(self):
@@ -286,6 +291,7 @@ class Connector:
         # TODO: retain listening port between connection generations?
         ep = serverFromString(self._reactor, "tcp:0")
         f = InboundConnectionFactory(self)
+        self._inbound_factories.append(f)
         d = ep.listen(f)
 
         def _listening(lp):
@@ -440,6 +446,7 @@ def describe_inbound(addr):
 @attrs(repr=False)
 class InboundConnectionFactory(ServerFactory):
     _connector = attrib(validator=provides(IDilationConnector))
+    _protocols = attrib(factory=set, init=False, repr=False)
 
     def __repr__(self):
         return f"InboundConnectionFactory({self._connector._role})"
@@ -448,4 +455,9 @@ class InboundConnectionFactory(ServerFactory):
         description = describe_inbound(addr)
         p = self._connector.build_protocol(addr, description)
         p.factory = self
+        # remember it until it disconnects, so the Connector can drop inbound
+        # connections that are still negotiating when it selects another
+        # one, or is stopped
+        self._protocols.add(p)
+        p.when_disconnected().addCallback(self._protocols.discard)
         return p
